@@ -391,8 +391,10 @@ def body(rec: Rec, case: dict) -> None:
         labels.append("queue>=16")
     if stats.get("probed"):
         labels.append("liveness-probe")
-    if case.get("server_kw"):
+    if (case.get("server_kw") or {}).get("read_bufsize"):
         labels.append("small-read-buffer")
+    if (case.get("server_kw") or {}).get("lingering_time") == 0:
+        labels.append("no-lingering")
     rec.case(case, nt, labels)
 
 
@@ -462,6 +464,14 @@ def cases(draw, deep: bool = False, with_bad: bool = False):
         # a small read buffer: bodies above twice its size pause reading on their own account, on top of the pause the
         # full request queue asks for (two reasons to keep the transport paused, two conditions to resume it)
         case["server_kw"] = {"read_bufsize": draw(st.sampled_from([16, 64, 128]))}
+    if not with_bad and draw(st.integers(0, 3)) == 0:
+        # no lingering: a body the handler did not read is not drained afterwards (the connection is closed instead);
+        # with a small read buffer an unread body is enough to pause reading
+        kw = dict(case.get("server_kw") or {})
+        kw["lingering_time"] = 0
+        if "read_bufsize" not in kw and draw(st.booleans()):
+            kw["read_bufsize"] = draw(st.sampled_from([16, 64]))
+        case["server_kw"] = kw
     if draw(st.integers(0, 3)) == 0:
         case["disconnect_at"] = draw(st.integers(1, 40))
         case["disc_kind"] = draw(st.sampled_from(["close", "reset"]))
